@@ -88,38 +88,44 @@ TEMPLATES = {
     "inv": "{{#invoke:m|f|{{{1}}}}}",
     "deep": "{{#if:1|{{deep2|{{{1}}}}}}}",
     "deep2": "{{{1}}}{{{nope|{{a}}}}}",
+    "empty": "",
+    "doconly": "<noinclude>documentation</noinclude>",
+    "cmtonly": "<!-- nothing -->",
+    "onlyinc": "x<onlyinclude>O{{{1|}}}</onlyinclude>y",
+    "list": "* item {{{1|}}}",
+    "tbl": "{|\n| c\n|}",
+    "nw": "<nowiki>{{a}}</nowiki>{{{1|}}}",
+    "args": "{{{1}}}{{{2|}}}{{{n|{{{1}}}}}}{{{{{{1}}}|z}}}",
+    "sp ace": "S",
+    "a:b": "colon",
+    "err": "{{#expr:1+}}{{#invoke:m|e}}",
+    "flag": "== h ==",
 }
 DOCS = [
-    "plain",
-    "{{a}}",
-    "{{a|1}}{{b|2|x=3}}",
-    "{{missing|1}}",
-    "{{self}}",
-    "{{p1}}",
-    "{{#if:x|{{a}}|b}}",
-    "{{#expr:1+}}",
-    "{{#switch:a|a=1|b=2}}",
-    "{{#invoke:m|f|1}}",
-    "{{#invoke:m|e}}",
-    "{{#invoke:m|pp}}",
-    "{{#invoke:m|et}}",
-    "{{#invoke:m|tag}}",
-    "{{#invoke:m}}",
-    "{{#invoke:nomod|f}}",
-    "{{inv|z}}",
-    "{{deep|k}}",
-    "{{{arg|def}}}",
-    "{{{arg}}}",
-    "[[link|{{a}}]] [http://x {{a}}]",
-    "<nowiki>{{a}}</nowiki>",
-    "{{a|{{#invoke:m|f}}}}",
-    "{{ {{a}} }}",
-    "{{lc:ABC}}{{PAGENAME}}",
-    "{{#tag:span|x}}",
-    "{{subst:a}}{{safesubst:b|1}}",
-    "{{#unknownfn:x}}",
-    "{{a|b=c|1=d}}",
+    "plain", "{{a}}", "{{a|1}}{{b|2|x=3}}", "{{missing|1}}", "{{self}}", "{{p1}}", "{{#if:x|{{a}}|b}}", "{{#expr:1+}}",
+    "{{#switch:a|a=1|b=2}}", "{{#invoke:m|f|1}}", "{{#invoke:m|e}}", "{{#invoke:m|pp}}", "{{#invoke:m|et}}", "{{#invoke:m|tag}}",
+    "{{#invoke:m}}", "{{#invoke:nomod|f}}", "{{inv|z}}", "{{deep|k}}", "{{{arg|def}}}", "{{{arg}}}", "[[link|{{a}}]] [http://x {{a}}]",
+    "<nowiki>{{a}}</nowiki>", "{{a|{{#invoke:m|f}}}}", "{{ {{a}} }}", "{{lc:ABC}}{{PAGENAME}}", "{{#tag:span|x}}",
+    "{{subst:a}}{{safesubst:b|1}}", "{{#unknownfn:x}}", "{{a|b=c|1=d}}",
 ]
+REDIRECTS = {"redir": "Template:a", "redir2": "Template:missing-target", "redirempty": "Template:empty"}
+MAINPAGES = [("Mainpage", 0, "main {{a}}"), ("Emptypage", 0, "")]
+ARGSETS = ["", "|1", "|x=1", "|2=b|a", "| |", "|{{a}}", "|{{{q|}}}", "|[[l]]", "|<nowiki>|</nowiki>", "|1=|1=z"]
+WRAPS = ["%s", "{{#if:1|%s}}", "{{a|%s}}", "[[l|%s]]", "{{{u|%s}}}", "%s%s", "{{b|x=%s}}"]
+
+
+def _docs():
+    yield from DOCS
+    names = list(TEMPLATES) + list(REDIRECTS) + [":Mainpage", ":Emptypage", "Template:a", "template:empty", "nosuch", "A", "#invoke:m|f", "#invoke:m|e", "lc:X", "#tag:span"]
+    for n in names:
+        for a in ARGSETS[:4]:
+            yield "{{" + n + a + "}}"
+    for n in names:
+        for w in WRAPS[1:]:
+            yield w.replace("%s", "{{" + n + "}}")
+    for n in ["a", "empty", "args", "inv", "redir"]:
+        for a in ARGSETS[4:]:
+            yield "{{" + n + a + "}}"
 
 
 def _option_sets():
@@ -140,23 +146,32 @@ def _kw_text(kw):
     return ", ".join(f"{k}={'<hook>' if callable(v) else v!r}" for k, v in kw.items())
 
 
-_leaks_cache = None
+def make_ctx():
+    from vf.wtpfix import new_ctx
+
+    ctx = new_ctx(templates=TEMPLATES, modules=MODS, pages=MAINPAGES)
+    for n, tgt in REDIRECTS.items():
+        ctx.add_page("Template:" + n, 10, redirect_to=tgt)
+    ctx.add_page("Template:flag", 10, TEMPLATES["flag"], need_pre_expand=True)
+    ctx.db_conn.commit()
+    return ctx
 
 
-def find_leaks(max_found: int = 50):
-    """Runs the catalogue on the real code; returns a list of (doc, kwtext, before, after, lines_executed)."""
-    global _leaks_cache
-    if _leaks_cache is not None:
-        return _leaks_cache
-    from vf.wtpfix import new_ctx, close
+def find_leaks(targets: set, budget_s: float = 150.0):
+    """Runs candidate pages x option sets on the real code under line tracing until, for every target
+    (file, line), a run is found that executes the line and returns with a changed expand_stack.
+    Returns ({target: (doc, kwtext, before, after)}, runs)."""
+    from vf.wtpfix import close
 
-    ctx = new_ctx(templates=TEMPLATES, modules=MODS)
-    found = []
+    ctx = make_ctx()
+    found: dict = {}
     n = 0
-    for doc in DOCS:
-        for kw in _option_sets():
-            if "loop" in doc:
-                continue
+    t0 = time.time()
+    optsets = list(_option_sets())
+    for doc in _docs():
+        for kw in optsets:
+            if time.time() - t0 > budget_s or len(found) == len(targets):
+                break
             ctx.start_page("T")
             before = list(ctx.expand_stack)
             lines: set = set()
@@ -164,10 +179,13 @@ def find_leaks(max_found: int = 50):
             def tr(frame, ev, arg, lines=lines):
                 fn = frame.f_code.co_filename
                 if fn.endswith(("core.py", "luaexec.py")):
+                    base = os.path.basename(fn)
+
                     def local(frame, ev, arg):
                         if ev == "line":
-                            lines.add((os.path.basename(fn), frame.f_lineno))
+                            lines.add((base, frame.f_lineno))
                         return local
+
                     return local
                 return None
 
@@ -183,14 +201,11 @@ def find_leaks(max_found: int = 50):
             n += 1
             after = list(ctx.expand_stack)
             if after != before:
-                found.append((doc, _kw_text(kw), before, after, lines))
-                if len(found) >= max_found:
-                    break
-        if len(found) >= max_found:
-            break
+                for tg in targets:
+                    if tg in lines and tg not in found:
+                        found[tg] = (doc, _kw_text(kw), before, after)
     close(ctx)
-    _leaks_cache = (found, n)
-    return _leaks_cache
+    return found, n
 
 
 def run(rep: C.Report) -> None:
@@ -262,22 +277,21 @@ def run(rep: C.Report) -> None:
             ob.detail += "no function touching expand_stack found; "
     hit_obs = set()
     if unbalanced:
-        leaks, nrun = find_leaks()
+        targets = {(fname, line) for _, _, fname, _, line, _, _ in unbalanced}
+        leaks, nrun = find_leaks(targets)
         rep.extra["replay_catalogue_runs"] = nrun
         for ob, name, fname, kind, line, dv, path in unbalanced:
-            matched = [lk for lk in leaks if (fname, line) in lk[4]]
-            ob.samples.append({"function": name, "exit": kind, "line": line, "depth_delta": dv, "branch_model": path[:12], "replayed": bool(matched)})
-            if matched:
-                doc, kwt, before, after, _ = matched[0]
+            hit = leaks.get((fname, line))
+            ob.samples.append({"function": name, "exit": kind, "line": line, "depth_delta": dv, "branch_model": path[:12], "replayed": bool(hit)})
+            if hit:
+                doc, kwt, before, after = hit
                 sig = f"expand_stack leak at exit of {name.split(':')[1]} ({kind}): expand({doc!r}, {kwt})"
                 v = rep.violation(sig, f"expand_stack {before} -> {after} after a returning expand() call; unbalanced syntactic path ends at {fname}:{line}", {"doc": doc, "kw": kwt, "line": line})
                 ob.__dict__.setdefault("_vs", []).append(v)
                 ob.confirmed_conditions += 1
-                hit_obs.add(id(ob))
             else:
-                ob.detail += f"{name} exit {kind}@{line}: unbalanced path (delta {dv}) found by z3 but no catalogue page reproduces a leak through it -> inconclusive; "
+                ob.detail += f"{name} exit {kind}@{line}: unbalanced path (delta {dv}) found by z3 but none of {nrun} generated page/option runs reproduces a leak through it -> inconclusive; "
                 ob.__dict__["_bad"] = True
-        # a leak seen by the replay catalogue that is on no sat path would mean the encoder is wrong
     for ob in (ob1, ob2):
         if ob.verdict == C.NOT_ENCODABLE:
             continue
@@ -305,7 +319,7 @@ def run(rep: C.Report) -> None:
 def replay(r: dict) -> int:
     from vf.wtpfix import new_ctx
 
-    ctx = new_ctx(templates=TEMPLATES, modules=MODS)
+    ctx = make_ctx()
     rp = r["replay"]
     if "doc" in rp:
         kw = {}
